@@ -33,6 +33,11 @@ def run_harness(binary, ops_path, out_path, timeout=600, env=None):
         r = subprocess.run([binary, ops_path, out_path], env=e, stdout=subprocess.PIPE,
                            stderr=subprocess.PIPE, text=True, timeout=timeout)
         rc, err = r.returncode, r.stderr[-4000:]
+        if rc != 0:
+            import re
+            m = re.search(r"^(fatal error:|panic:).*$", r.stderr, re.M)
+            if m:
+                err = m.group(0) + "\n" + err
     except subprocess.TimeoutExpired:
         rc, err = -9, "timeout"
     return rc, err, time.time() - t0
@@ -106,7 +111,10 @@ def _compare(ops_lines, g, l, rc_go, err_go, rc_lean, err_lean):
         b = l[i] if i < len(l) else "<missing>"
         if a != b:
             diffs.append((i, ops_lines[i], a, b))
-    return {"go": g[:n], "lean": l[:n], "diffs": diffs, "rc_go": rc_go, "err_go": err_go,
+    # a process that died leaves its output short: pad, so that the lines of the chunks that follow keep their places
+    g = (g + ["<missing>"] * n)[:n]
+    l = (l + ["<missing>"] * n)[:n]
+    return {"go": g, "lean": l, "diffs": diffs, "rc_go": rc_go, "err_go": err_go,
             "rc_lean": rc_lean, "err_lean": err_lean}
 
 
